@@ -179,3 +179,75 @@ def run(res, facts, tier):
     r2_compare(res, facts)
     r3_caches(res, facts)
     res.assume('C16: collation results, the permutation of a particular list and position()/last() inside the sorted loop are behavioural and not decided')
+
+
+def r4_key_context(res, facts):
+    """XSLT 1.0 §10: a sort key is evaluated with the node as current node and the complete unsorted selection as current node list.
+    NodeSorter evaluates keys lazily during the sort, so the list that position() / last() in a key see is whatever is pushed around sort()."""
+    r = res.rule('C16-R4', 'every call of NodeSorter::sort is in the scope of a ContextNodeListPushAndPop guard that pushes the unsorted selection: position() and last() in a sort key '
+                 'refer to the selection being sorted, not to the node list of the enclosing instruction', floor=1)
+    sites = 0
+    for k in facts.astidx:
+        a = facts.ast(k)
+        if a is None or not facts.lib_path(a['file']):
+            continue
+        sorts = [c for c in calls(a['body']) if c.get('k') == 'MCall' and c.get('n') == 'sort' and 'NodeSorter' in (c.get('cls') or '') and len(c.get('args', [])) == 2]
+        if not sorts or short(facts.name[k]).startswith('NodeSorter::'):
+            continue
+        for sc in sorts:
+            sites += 1
+            guard = []
+
+            def search(block, active):
+                """walk nested compounds; `active` = guard decls in scope"""
+                if not isinstance(block, dict):
+                    return False
+                if block.get('k') == 'Compound':
+                    act = list(active)
+                    for st in block.get('c', []):
+                        if st.get('k') == 'Decl':
+                            for v in st.get('vars', []):
+                                if 'ContextNodeListPushAndPop' in (v.get('ty') or ''):
+                                    act.append(v)
+                        if any(x is sc for x in walk(st)):
+                            if st.get('k') == 'Compound' or any(y.get('k') == 'Compound' for y in walk(st) if y is not st):
+                                # descend
+                                for sub in ([st] if st.get('k') == 'Compound' else [y for y in walk(st) if y is not st and y.get('k') == 'Compound']):
+                                    if any(x is sc for x in walk(sub)):
+                                        return search(sub, act)
+                            guard.extend(act)
+                            return True
+                    return False
+                for y in walk(block):
+                    if y is not block and y.get('k') == 'Compound' and any(x is sc for x in walk(y)):
+                        return search(y, active)
+                return False
+            search(a['body'], [])
+            fn = short(facts.name[k])
+            site = '%s: sorter.sort(%s)' % (fn, pp(sc['args'][1])[:30])
+            sorted_list = pp(strip_casts(sc['args'][1]))
+            if not guard:
+                r.violation(site, 'the sort runs without a ContextNodeListPushAndPop in scope: keys that use position() or last() are evaluated against the node list of the enclosing '
+                            'instruction (position() = 0 or the outer position, last() = the outer size), so such keys all tie or sort by the wrong value', common.file_line(a, sc))
+                continue
+            g = guard[-1]
+            init = strip_casts(g.get('init'))
+            pushed = pp(strip_casts(init['args'][-1])) if isinstance(init, dict) and init.get('k') == 'Ctor' and init.get('args') else '?'
+            # the pushed list is the selection the sorted list was copied from, or the sorted list itself before sorting
+            copied = any(x.get('k') in ('Bin', 'OpCall') and x.get('op') == '=' and pp(strip_casts(x['lhs'] if x['k'] == 'Bin' else x['args'][0])) == sorted_list and
+                         pp(strip_casts(x['rhs'] if x['k'] == 'Bin' else x['args'][1])) == pushed for x in walk(a['body']))
+            if pushed == sorted_list or copied:
+                r.ok(site, 'within ContextNodeListPushAndPop(%s)' % pushed)
+            else:
+                r.violation(site, 'the guard in scope pushes %s, which is not the selection being sorted (%s)' % (pushed, sorted_list), common.file_line(a, sc))
+    if sites == 0:
+        raise AnalysisBroken('no call of NodeSorter::sort(executionContext, list) found outside NodeSorter')
+    return r
+
+
+_run_c16_prev = run
+
+
+def run(res, facts, tier):
+    _run_c16_prev(res, facts, tier)
+    r4_key_context(res, facts)
